@@ -290,7 +290,10 @@ def check_loop(case):
     from xyzpy.gen.case_runner import find_missing_cases
 
     method = case["method"]
-    f = xfn.make_fn(["a", "b"], kind="num", name="f13")
+    # (the function's own signature lists the arguments in the dataset's
+    # order, or the other way round)
+    fs = [xfn.make_fn(["a", "b"], kind="num", name="f13"),
+          xfn.make_fn(["b", "a"], kind="num", name="f13")]
     vio = []
     kinds = ["data", "null"] + (["inf"] if method == "isfinite" else [])
     n = 0
@@ -302,6 +305,7 @@ def check_loop(case):
                            "null": np.nan, "inf": np.inf}[k]
         ds = xr.Dataset({"out": (("a", "b"), arr)},
                         coords={"a": [1, 2], "b": [10, 20]})
+        f = fs[n % 2]
         h = xyz.Harvester(xyz.Runner(f, var_names="out"), full_ds=ds)
         fn_args, missing = find_missing_cases(h.full_ds, method=method)
         n += 1
@@ -318,8 +322,13 @@ def check_loop(case):
             vio.append(("C13|%s|loop|still-missing" % method,
                         "after harvesting the reported cases %r, still "
                         "reported: %r" % (missing, again)))
-        vals = h.full_ds["out"].values
-        for (a, b), v in zip(pts, vals.ravel()):
+        out = h.full_ds["out"]
+        if sorted(out.dims) != ["a", "b"] or out.shape != (2, 2):
+            vio.append(("C13|%s|loop|shape" % method, "after the loop the "
+                        "dataset has dims %r shape %r" % (out.dims, out.shape)))
+            continue
+        for (a, b) in pts:
+            v = out.sel(a=a, b=b).item()
             if v != xfn.expected("num", dict(a=a, b=b)):
                 vio.append(("C13|%s|loop|value" % method,
                             "cell a=%r b=%r holds %r after the loop" % (a, b, v)))
